@@ -195,16 +195,25 @@ func (w *world) host(u *unit, mod api.Module, obs []uint64) []uint64 {
 // define adds unit u to the host module builder in its style.
 func (w *world) define(hb wazero.HostModuleBuilder, u *unit) wazero.HostModuleBuilder {
 	name := fmt.Sprintf("u%d", u.idx)
-	sig := u.sig
+	if u.st.Kind == kTyped {
+		return hb.NewFunctionBuilder().WithFunc(typedByName[u.st.Typed].mk(w, u)).Export(name)
+	}
+	return defineHostFn(hb, name, u.sig, u.st, func(mod api.Module, obs []uint64) []uint64 { return w.host(u, mod, obs) },
+		func(e string) { w.hostErr = e })
+}
+
+// defineHostFn exports one host function of signature sig in style st (kGoFunc, kGoModFunc or kReflect); core gets
+// the observed parameters (32-bit types on their 32 significant bits) and returns the results in canonical encoding.
+func defineHostFn(hb wazero.HostModuleBuilder, name string, sig *sigT, st styleT, core func(mod api.Module, obs []uint64) []uint64, onErr func(string)) wazero.HostModuleBuilder {
 	stackFn := func(mod api.Module, stack []uint64) {
 		obs := make([]uint64, len(sig.P))
 		for i, t := range sig.P {
 			obs[i] = mask(t, stack[i]) // api.DecodeI32/DecodeF32/... : only the low 32 bits are significant
 		}
-		res := w.host(u, mod, obs)
+		res := core(mod, obs)
 		copy(stack, res) // results are already in the canonical encoding (32-bit values zero-extended)
 	}
-	switch u.st.Kind {
+	switch st.Kind {
 	case kGoFunc:
 		return hb.NewFunctionBuilder().WithGoFunction(api.GoFunc(func(ctx context.Context, stack []uint64) {
 			stackFn(nil, stack)
@@ -212,16 +221,14 @@ func (w *world) define(hb wazero.HostModuleBuilder, u *unit) wazero.HostModuleBu
 	case kGoModFunc:
 		return hb.NewFunctionBuilder().WithGoModuleFunction(api.GoModuleFunc(func(ctx context.Context, mod api.Module, stack []uint64) {
 			if mod == nil {
-				w.hostErr = "api.Module handed to a GoModuleFunc is nil"
+				onErr("api.Module handed to a GoModuleFunc is nil")
 			}
 			stackFn(mod, stack)
 		}), sig.P, sig.R).Export(name)
-	case kTyped:
-		return hb.NewFunctionBuilder().WithFunc(typedByName[u.st.Typed].mk(w, u)).Export(name)
 	}
 	// reflect.MakeFunc
 	var in, out []reflect.Type
-	switch u.st.Ctx {
+	switch st.Ctx {
 	case 1:
 		in = append(in, ctxType)
 	case 2:
@@ -229,30 +236,30 @@ func (w *world) define(hb wazero.HostModuleBuilder, u *unit) wazero.HostModuleBu
 	}
 	off := len(in)
 	for i, t := range sig.P {
-		in = append(in, u.st.goType(t, i))
+		in = append(in, st.goType(t, i))
 	}
 	for i, t := range sig.R {
-		out = append(out, u.st.goType(t, i))
+		out = append(out, st.goType(t, i))
 	}
 	ft := reflect.FuncOf(in, out, false)
 	fn := reflect.MakeFunc(ft, func(args []reflect.Value) []reflect.Value {
 		var mod api.Module
-		if u.st.Ctx == 2 {
+		if st.Ctx == 2 {
 			mod, _ = args[1].Interface().(api.Module)
 			if mod == nil {
-				w.hostErr = "api.Module handed to a reflected host function is nil"
+				onErr("api.Module handed to a reflected host function is nil")
 			}
 		}
-		if u.st.Ctx >= 1 {
+		if st.Ctx >= 1 {
 			if c, _ := args[0].Interface().(context.Context); c == nil {
-				w.hostErr = "context.Context handed to a reflected host function is nil"
+				onErr("context.Context handed to a reflected host function is nil")
 			}
 		}
 		obs := make([]uint64, len(sig.P))
 		for i := range sig.P {
 			obs[i] = bitsOf(args[off+i])
 		}
-		res := w.host(u, mod, obs)
+		res := core(mod, obs)
 		rv := make([]reflect.Value, len(res))
 		for i := range res {
 			rv[i] = valueOf(out[i], res[i])
